@@ -77,6 +77,7 @@ func (c *Cluster) exec(s *Step) {
 		fmt.Fprintf(os.Stderr, "step %d: %s\n", c.stepNo, s.String())
 	}
 	c.net.deliverLate()
+	c.resumeDue()
 
 	func() {
 		defer func() {
@@ -148,8 +149,11 @@ func (c *Cluster) execOp(s *Step) {
 		c.opLeave(s)
 	case "rejoin":
 		c.opRejoin(s)
+	case "reff":
+		c.opReFastForward(s)
 	case "suspend":
 		if n := c.nodeAt(s.A); n != nil && n.running() {
+			c.drainTasksOf(n)
 			n.node.Suspend()
 		}
 	case "crash":
@@ -190,6 +194,11 @@ func (c *Cluster) opTick(s *Step) {
 			}
 			c.net.legs = map[string]string{"pull": s.Pull, "push": s.Push}
 			c.net.lateK = s.Late
+			if s.Kind == "async" {
+				c.net.legs = map[string]string{}
+				c.asyncTick(a, b, s)
+				return
+			}
 			if s.Kind == "pullonly" {
 				if _, err := a.node.SimPull(p); err != nil {
 					c.stats.probe("pull-error")
@@ -290,6 +299,7 @@ func (c *Cluster) opLeave(s *Step) {
 	c.tasks = append(c.tasks, t)
 	a.task = t
 	a.leaving = true
+	c.drainTasksOf(a)
 	nd := a.node
 	go func() {
 		defer func() {
